@@ -93,6 +93,36 @@ package clickhouse_planner
 //@ func (*ValuesPlanner).Process [C13]
 //@   check upper-date: result1 == nil ==> fmtDay >= fdiv(ctx.To.UnixNano(), 86400000000000)
 
+// ---------------------------------------------------------------- order of the matrix functions (C08)
+
+// getFunctionOrder walks the AST and appends one planning step per node to
+// p.matrixFunctionsOrder; the steps run in list order. Required order, for every
+// script: the named function first, then the vector aggregation over it, then
+// top/bottom-k, and the comparison threshold written after a node directly
+// after that node's own step. Steps are identified by what they call
+// (fncalls(step, "planTopK"): the step is a closure that calls planTopK), not by
+// their position in the source.
+//@ spec fn lastIs(p *planner, back int, name string) bool = len(p.matrixFunctionsOrder) >= back && fncalls(p.matrixFunctionsOrder[len(p.matrixFunctionsOrder) - back], name)
+
+// visit(fn, nodes...) calls fn on every non-nil node, in order, and does nothing
+// else (reflection is only used for the nil test). Its only caller passes
+// p.getFunctionOrder, whose postcondition (steps are only appended) is therefore
+// what a call of visit guarantees; assumed, visit itself is not verified.
+//@ func visit
+//@   modifies allof(planner.matrixFunctionsOrder), allof(planner.matrixFunctionsLabelsIDX)
+//@   ensures forall q *planner :: len(q.matrixFunctionsOrder) >= old(len(q.matrixFunctionsOrder))
+//@   ensures forall q *planner, k int :: 0 <= k && k < old(len(q.matrixFunctionsOrder)) ==> q.matrixFunctionsOrder[k] == old(q.matrixFunctionsOrder[k])
+
+//@ func (*planner).getFunctionOrder [C08]
+//@   modifies allof(planner.matrixFunctionsOrder), allof(planner.matrixFunctionsLabelsIDX)
+//@   ensures never-shorter: len(p.matrixFunctionsOrder) >= old(len(p.matrixFunctionsOrder))
+//@   ensures appended-only: forall k int :: 0 <= k && k < old(len(p.matrixFunctionsOrder)) ==> p.matrixFunctionsOrder[k] == old(p.matrixFunctionsOrder[k])
+//@   ensures function-first: typeis(script, "*logql_parser.LRAOrUnwrap") ==> len(p.matrixFunctionsOrder) >= old(len(p.matrixFunctionsOrder)) + 1 && (fncalls(p.matrixFunctionsOrder[old(len(p.matrixFunctionsOrder))], "planLRA") || fncalls(p.matrixFunctionsOrder[old(len(p.matrixFunctionsOrder))], "planUnwrapFn"))
+//@   ensures function-then-threshold: typeis(script, "*logql_parser.LRAOrUnwrap") ==> (unbox(script, "*logql_parser.LRAOrUnwrap").Comparison != nil ==> len(p.matrixFunctionsOrder) == old(len(p.matrixFunctionsOrder)) + 2 && lastIs(p, 1, "planComparison")) && (unbox(script, "*logql_parser.LRAOrUnwrap").Comparison == nil ==> len(p.matrixFunctionsOrder) == old(len(p.matrixFunctionsOrder)) + 1)
+//@   ensures aggregation-after-function: typeis(script, "*logql_parser.AggOperator") ==> (unbox(script, "*logql_parser.AggOperator").Comparison != nil ==> lastIs(p, 1, "planComparison") && lastIs(p, 2, "planAgg")) && (unbox(script, "*logql_parser.AggOperator").Comparison == nil ==> lastIs(p, 1, "planAgg")) && len(p.matrixFunctionsOrder) >= old(len(p.matrixFunctionsOrder)) + 2 && (fncalls(p.matrixFunctionsOrder[old(len(p.matrixFunctionsOrder))], "planLRA") || fncalls(p.matrixFunctionsOrder[old(len(p.matrixFunctionsOrder))], "planUnwrapFn"))
+//@   ensures topk-last-then-threshold: typeis(script, "*logql_parser.TopK") ==> (unbox(script, "*logql_parser.TopK").Comparison != nil ==> lastIs(p, 1, "planComparison") && lastIs(p, 2, "planTopK")) && (unbox(script, "*logql_parser.TopK").Comparison == nil ==> lastIs(p, 1, "planTopK"))
+//@   ensures quantile-then-threshold: typeis(script, "*logql_parser.QuantileOverTime") ==> (unbox(script, "*logql_parser.QuantileOverTime").Comparison != nil ==> lastIs(p, 1, "planComparison") && lastIs(p, 2, "planQuantileOverTime")) && (unbox(script, "*logql_parser.QuantileOverTime").Comparison == nil ==> lastIs(p, 1, "planQuantileOverTime"))
+
 // ---------------------------------------------------------------- line filters (C07 operator mapping, C14 re-execution)
 
 //@ func (*LineFilterPlanner).re2Like
